@@ -40,7 +40,7 @@ def build():
                           (r"let mut k = 0;", """assert(self.polled@.drop_last() =~= p0);
                 assert(expected_batch(self.polled@.last(), 0) =~= Seq::empty());"""),
                           (r"let evset = match EventSet::from_bits", "assert(*event == self.polled@.last()[k - 1]); lemma_low16(event.data);"),
-                          (r"break 'epoll;\s*\}\s*\}", """assert(self.polled@.subrange(old(self).polled@.len() as int, self.polled@.len() as int).drop_last() =~= p0.subrange(old(self).polled@.len() as int, p0.len() as int));
+                          (r"\{\s*break 'epoll;\s*\}\s*\}", """assert(self.polled@.subrange(old(self).polled@.len() as int, self.polled@.len() as int).drop_last() =~= p0.subrange(old(self).polled@.len() as int, p0.len() as int));
             assert(self.polled@.subrange(old(self).polled@.len() as int, self.polled@.len() as int).last() == self.polled@.last());""", "after"),
                           (r"return Err\(VringEpollError::EpollWait\(e\)\);", """if self.polled@.len() > old(self).polled@.len() {
                         let s = self.polled@.subrange(old(self).polled@.len() as int, self.polled@.len() as int);
